@@ -828,6 +828,12 @@ func main() {
 		probe(os.Args[2])
 		return
 	}
+	if len(os.Args) > 2 && os.Args[1] == "dumpcontrols" {
+		a, _ := strconv.Atoi(os.Args[2])
+		dumpControls(a)
+		runner.Cleanup()
+		return
+	}
 	if len(os.Args) > 3 && os.Args[1] == "dumpvis" {
 		a, _ := strconv.Atoi(os.Args[2])
 		b, _ := strconv.Atoi(os.Args[3])
